@@ -314,6 +314,16 @@ class Run:
                     self.request(tn, tag)
                 act.__name__ = 'script_request'
                 self.env.schedule_event(t, -2, act, prio)
+            for t in self.case.get('clear_history_at', []):
+                def report_and_clear():
+                    # a per-period cost report: the user reads the maintainer's value history and empties the list it
+                    # was handed; the charges made so far stay charged
+                    n = len(self.maint.value_history)
+                    self.maint.value_history.clear()
+                    self.sh.count('value_histories_emptied_by_the_user')
+                    self.sh.count('value_history_entries_discarded', n)
+                report_and_clear.__name__ = 'script_report_and_clear'
+                self.env.schedule_event(t, -2, report_and_clear, 5)
             try:
                 self.system.simulate(self.case['horizon'], print_summary=False)
             except Exception as e:
@@ -357,8 +367,11 @@ def gen_case(rng, tie):
         if rng.random() < 0.5:
             t = rng.randrange(0, int(horizon * 4)) / 4.0
         script.append([t, rng.choice([2, 3, 3, 4, 6, 10, 10.5, 2.5]), rng.choice(names), rng.choice(tags)])
-    return {'engine': 'maint', 'capacity': cap, 'targets': targets, 'script': script, 'horizon': horizon,
+    case = {'engine': 'maint', 'capacity': cap, 'targets': targets, 'script': script, 'horizon': horizon,
             'tie': tie, 'tie_seed': rng.randrange(1 << 30)}
+    if case['tie_seed'] % 4 == 0:
+        case['clear_history_at'] = [int(horizon * 0.3 * 4) / 4.0, int(horizon * 0.6 * 4) / 4.0 + 0.125]
+    return case
 
 
 def run_case(sh, case):
